@@ -364,6 +364,10 @@ impl std::fmt::Display for FeelNumber {
 impl Jsonify for FeelNumber {
   /// Converts [FeelNumber] to its `JSON` representation.
   fn jsonify(&self) -> String {
+    // JSON has no notation for infinities and NaN (results of operations that left the range of numbers)
+    if !dec_is_finite(&self.0) {
+      return "null".to_string();
+    }
     scientific_to_plain(dec_to_string(&self.0))
   }
 }
